@@ -102,7 +102,7 @@ std::string trim(const std::string& s)
 
 std::string canon(std::string s)
 {
-  for (char& c : s) if (c == ' ' || c == '\n' || c == '\t' || c == ',' || c == '/') c = '_';
+  for (char& c : s) if (c == ' ' || c == '\n' || c == '\r' || c == '\t' || c == ',' || c == '/' || c == ':') c = '_';
   return s;
 }
 
